@@ -45,3 +45,15 @@ package ecdsa
 //@   modifies nothing
 //@   allocates
 //@   loop 1: invariant fresh(ids)
+
+// Ethereum export (C16): 65 bytes r || s || v with s normalised to the lower half of the scalar field (the
+// signature object is updated to the equivalent low-s signature (-R, -s) when s was high).
+//@ axiom forall(x, integer, s_overhalf(x) ==> !s_overhalf(s_neg(x)))
+//@ func (Signature).SigEthereum
+//@   nopanic[C05,C16]
+//@   requires sig.R != nil && sig.S != nil && typeis(sig.R, *curve.Secp256k1Point) && typeis(sig.S, *curve.Secp256k1Scalar)
+// (a point object and a scalar object are distinct objects; the untyped reference model needs it said)
+//@   requires refof(sig.R) != refof(sig.S)
+//@   ensures[C16] result1 == nil ==> (result0 != nil && len(result0) == 65)
+//@   ensures[C16] scval(sig.S) == ite(old(s_overhalf(scval(sig.S))), s_neg(old(scval(sig.S))), old(scval(sig.S)))
+//@   ensures[C16] !s_overhalf(scval(sig.S))
